@@ -201,14 +201,16 @@ class FullLinkControl(BytesInterface, BitsInterface):
                 self.talker_alias_data_format.as_bits()
                 + int2ba(self.talker_alias_data_length, length=5)
                 + bitarray([self.talker_alias_data_msb])
-                + bytes_to_bits(self.talker_alias_data)
+                # header carries 6 octets of alias data, shorter data is padded with zeros
+                + bytes_to_bits(bytes(self.talker_alias_data).ljust(6, b"\x00"))
             )
         elif self.full_link_control_opcode in (
             FLCOs.TalkerAliasBlock1,
             FLCOs.TalkerAliasBlock2,
             FLCOs.TalkerAliasBlock3,
         ):
-            common += bytes_to_bits(self.talker_alias_data)
+            # block carries 7 octets of alias data, shorter data is padded with zeros
+            common += bytes_to_bits(bytes(self.talker_alias_data).ljust(7, b"\x00"))
         else:
             raise KeyError(
                 f"as_bits unimplemented FLCO {self.full_link_control_opcode}"
